@@ -68,6 +68,16 @@ def step (au : Driver.Auth.St) (st : St) (op : List String) (impl : String) : Dr
            | none => "fail:unparsable-or-crashed")
         | _, _ => "fail:unparsable-or-crashed"
       ({ au with store := { out.1 with faults := [] } }, {}, model ++ "\t" ++ v)
+  | ["cc.slow", _label, _sched] =>
+    -- a slow backend behind the wrapper: polls are not call-by-call steps; the statement's clauses are evaluated on
+    -- what the implementation did (search), the model is not consulted
+    let v := match fieldOf impl "res", fieldOf impl "store" with
+      | some r, some t =>
+        (match (if t = "EMPTY" then some [] else (t.splitOn ";").mapM parseSnap) with
+         | some post => verdict (r.splitOn "|") st.regIds post
+         | none => "fail:unparsable-or-crashed")
+      | _, _ => "fail:unparsable-or-crashed"
+    (au, {}, impl ++ "\t" ++ v)
   | _ => (au, st, "bad-op\tna")
 
 end PasskeyVerif.Driver.Concurrent
